@@ -58,7 +58,7 @@ COMPONENTS = {
     "model": ["afqmcsim.models.fock (Hamiltonian, exact diagonalisation, determinant amplitudes)"],
     "stub": ["mpi4py.MPI -> SimComm/SimWorld", "wall clock", "stdout", "Dice (dets.bin written by an independent writer)"],
 }
-REQUIRED_PROBES = {"quick": ["list_runs", "driver_runs", "non_aufbau_reference", "file_route", "exact_energy_checks", "spin_dependent_h1", "restricted_entry_checked"],
+REQUIRED_PROBES = {"quick": ["list_runs", "driver_runs", "non_aufbau_reference", "file_route", "exact_energy_checks", "spin_dependent_h1", "restricted_entry_checked", "list_assembled_twice"],
                    "thorough": ["list_runs", "driver_runs", "non_aufbau_reference", "file_route", "pyscf_route", "exact_energy_checks", "fault_fired"]}
 
 
@@ -187,6 +187,15 @@ def make_list(cfg, sec, vec):
     return dets, coeffs
 
 
+def _assemble_once_before(cfg, ctx, pyscf_interface, state):
+    """History of the caller's list: in half of the runs the same dictionary has already been assembled once
+    (a sweep over max_excitation / ndets does that); the trial is then built from the *second* assembly and is
+    compared, like any other, with the state the list names."""
+    if cfg["order_seed"] % 2 == 0:
+        pyscf_interface.get_excitations(state=state, max_excitation=max(1, cfg["max_excitation"] - 1))
+        ctx.probe("list_assembled_twice", 1)
+
+
 def trial_from_list(cfg, dets, coeffs, ctx, sec=None, pyscf_obj=None):
     """Build (trial, wave_data) through the configured route of the real interface."""
     from ad_afqmc import pyscf_interface, wavefunctions
@@ -194,6 +203,7 @@ def trial_from_list(cfg, dets, coeffs, ctx, sec=None, pyscf_obj=None):
     norb, nelec = cfg["norb"], tuple(cfg["nelec"])
     if cfg["route"] == "state":
         state = {d: c for d, c in zip(dets, coeffs)}
+        _assemble_once_before(cfg, ctx, pyscf_interface, state)
         out = pyscf_interface.get_excitations(state=state, max_excitation=cfg["max_excitation"])
     elif cfg["route"] == "file":
         d = env.make_scratch("afqmcsim-dets-")
@@ -212,6 +222,7 @@ def trial_from_list(cfg, dets, coeffs, ctx, sec=None, pyscf_obj=None):
         ctx.probe("file_route", 1)
     else:
         state = pyscf_interface.get_fci_state(pyscf_obj, tol=0.0)
+        _assemble_once_before(cfg, ctx, pyscf_interface, state)
         out = pyscf_interface.get_excitations(state=state, max_excitation=cfg["max_excitation"])
         ctx.probe("pyscf_route", 1)
     Acre, Ades, Bcre, Bdes, coeff, ref_det = out
